@@ -421,6 +421,60 @@ Lemma parse_wrap_witness :
   parse_qty (Q (-17179869183) UG) = Some 1073741824.
 Proof. vm_compute. auto. Qed.
 
+(* ------------------------------------------------------------------ any actual sizes up to the declared ones
+   On a real disk a structure with min-size < size may have any size in between (EnsureVolumeCompatibility accepts
+   [min-size, size]; install creates with the full size), and a structure without an offset of its own then starts at the
+   actual end of its predecessor. on_disk_sized: the layout for a choice zs of actual sizes (spec level, unbounded sums). *)
+Fixpoint on_disk_sized_from (off : N) (l : list structure) (zs : list N) : list (N * N) :=
+  match l, zs with
+  | s :: r, z :: zr => let st := match s_offset s with Some o => o | None => off end in
+                       (st, z) :: on_disk_sized_from (st + z) r zr
+  | _, _ => []
+  end.
+Definition on_disk_sized (l : list structure) (zs : list N) : list (N * N) := on_disk_sized_from 0 l zs.
+
+Lemma on_disk_sized_chain : forall f vs l prev zs off,
+  validate_cross_from f vs prev l = true -> Forall fits (on_disk_from prev l) ->
+  Forall2 (fun s z => z <= s_size s) l zs -> off <= prev ->
+  disjoint_incr (on_disk_sized_from off l zs) = true /\
+  (forall p t, on_disk_sized_from off l zs = p :: t -> off <= fst p).
+Proof.
+  intros f vs l. induction l as [|s r IH]; intros prev zs off Hv Hf Hz Hoff.
+  - cbn. split; [reflexivity | intros p t H; discriminate].
+  - inversion Hz as [|s' z l' zr Hzs Hzr]; subst.
+    cbn [validate_cross_from on_disk_from on_disk_sized_from] in *.
+    apply andb_prop in Hv. destruct Hv as [_ Hv].
+    inversion Hf as [|x xs Hx Hxs]; subst; clear Hf. unfold fits in Hx. cbn [fst snd] in Hx.
+    destruct (s_offset s) as [o|] eqn:Eo.
+    + apply andb_prop in Hv. destruct Hv as [Hge Hv].
+      rewrite (add64_small _ _ Hx) in *.
+      assert (Hle : o + z <= o + s_size s) by lia.
+      destruct (IH _ _ _ Hv Hxs Hzr Hle) as [Hd Hh].
+      split.
+      * cbn [disjoint_incr]. destruct (on_disk_sized_from (o + z) r zr) as [|[s2 z2] t] eqn:Er; [reflexivity|].
+        specialize (Hh _ _ eq_refl). cbn [fst] in Hh. rewrite Hd.
+        destruct (N.leb_spec (o + z) s2); [reflexivity | lia].
+      * intros p t H. inversion H; subst. cbn [fst]. lia.
+    + rewrite (add64_small _ _ Hx) in *.
+      assert (Hle : off + z <= prev + s_size s) by lia.
+      destruct (IH _ _ _ Hv Hxs Hzr Hle) as [Hd Hh].
+      split.
+      * cbn [disjoint_incr]. destruct (on_disk_sized_from (off + z) r zr) as [|[s2 z2] t] eqn:Er; [reflexivity|].
+        specialize (Hh _ _ eq_refl). cbn [fst] in Hh. rewrite Hd.
+        destruct (N.leb_spec (off + z) s2); [reflexivity | lia].
+      * intros p t H. inversion H; subst. cbn [fst]. lia.
+Qed.
+
+Theorem accepted_disjoint_any_sizes : forall (v : raw_volume) (l : list structure) (zs : list N),
+  accept v = Some l -> Forall fits (on_disk l) -> Forall2 (fun s z => z <= s_size s) l zs ->
+  StronglySorted before (on_disk_sized l zs).
+Proof.
+  intros v l zs H Hf Hz. apply disjoint_incr_sorted. destruct (accept_valid _ _ H) as [_ Hc].
+  unfold on_disk_sized, on_disk in *. destruct l as [|f r]; [reflexivity|].
+  unfold validate_cross in Hc.
+  exact (proj1 (on_disk_sized_chain _ _ _ _ _ 0 Hc Hf Hz (N.le_refl 0))).
+Qed.
+
 (* ------------------------------------------------------------------ statements as used by props/C38.v *)
 Lemma accepted_disjoint_increasing : forall (v : raw_volume) (l : list structure),
   accept v = Some l -> Forall fits (on_disk l) ->
